@@ -2,10 +2,11 @@
 # usage: tools/benigntest.sh <patch.diff>   -- all 20 quick checks against a patched COPY of /repo (a behaviour-preserving
 # refactoring): every line printed is an alarm to look at (VIOLATION with a failing input = false alarm of the check;
 # `no-failing-input-found` = a proof/correspondence that depends on the exact code shape, allowed by the brief).
+patch=$(readlink -f "$1")
 work=$(mktemp -d /var/tmp/benign.XXXXXX)
 trap 'rm -rf "$work"; python3 tools/gen_tables.py /repo lean/CprocVerif/Gen >/dev/null 2>&1' EXIT
 (cd /repo && git ls-files | tar -cf - -T - | tar -xf - -C "$work"; cp config.h config.mk "$work/")
-(cd "$work" && patch -p1 -s < "$1") || { echo "PATCH FAILED"; exit 3; }
+(cd "$work" && patch -p1 -s < "$patch") || { echo "PATCH FAILED"; exit 3; }
 make -s -C "$work" >/dev/null 2>&1 || { echo "BUILD FAILED"; exit 3; }
 (cd "$work" && CCQBE=./cproc-qbe ./runtests 2>&1 | tail -1)
 for p in C01 C02 C03 C04 C05 C06 C07 C08 C09 C10 C11 C12 C13 C14 C15 C16 C17 C18 C19 C20; do
